@@ -60,6 +60,9 @@ end
 
 /-- whether `ApparentlyFacing.helper` computes the line of sight in the parent frame -/
 def apparentlyFacingUsesParent : Bool := false
+/-- whether `Beyond` tests `isA(fromPt, OrientedPoint)` before coercing `fromPt` to a vector
+    (only then can the orientation of an oriented `from` argument be inherited) -/
+def beyondInheritsFromOrientation : Bool := false
 /-- `Object.corners`: signs of `(hw, hl, hh)`, in source order -/
 def cornerTable : List (Int × Int × Int) := [(1, 1, 1), ((-1), 1, 1), ((-1), (-1), 1), (1, (-1), 1), (1, 1, (-1)), ((-1), 1, (-1)), ((-1), (-1), (-1)), (1, (-1), (-1))]
 /-- `Object.left … bottomBackRight`: signs of `(hw, hl, hh)` passed to `relativize` -/
